@@ -36,6 +36,9 @@ type Prog struct {
 	cg       *callgraph.Graph
 }
 
+// GoBin is the toolchain that can type-check /repo (go.mod asks for go >= 1.25.6).
+const GoBin = "/opt/veriftools/go1.26.8/bin"
+
 // RepoDir returns the directory of the analysed tree.
 func RepoDir() string {
 	if d := os.Getenv("TRCHECK_REPO"); d != "" {
@@ -49,6 +52,7 @@ func RepoDir() string {
 func Load(goos string, overlay map[string][]byte) (*Prog, error) {
 	dir := RepoDir()
 	env := append(os.Environ(),
+		"PATH="+GoBin+":"+os.Getenv("PATH"),
 		"GOFLAGS=-mod=readonly", "GOWORK=off", "CGO_ENABLED=0",
 		"GOOS="+goos, "GOARCH=amd64", "GOPROXY=off", "GOSUMDB=off", "GOTOOLCHAIN=local")
 	cfg := &packages.Config{
